@@ -194,7 +194,12 @@ class WorldGen:
         if with_zid:
             zid = self.new_zid()
             if self.has("stamps") and r.random() < 0.35:
-                parts.append(short(self.recent_date()))
+                if r.random() < 0.2:
+                    # a modify date EARLIER than the date in the ZID (hand-written or pasted; legal)
+                    zd = _real_dt.datetime.strptime("20" + zid[:6], "%Y%m%d").date()
+                    parts.append(short(zd - _real_dt.timedelta(days=r.randint(1, 40))))
+                else:
+                    parts.append(short(self.recent_date()))
             parts.append(zid)
         elif self.has("longdates") and r.random() < 0.3:
             parts.append(self.recent_date().isoformat())
